@@ -1,5 +1,9 @@
 SPECIFICATION Spec
 CONSTANTS MaxCalls = 3
+          SideCalls = 1
+          ExtMax = 0
+          ExtDepth = 3
           ZeroStatusFix = FALSE
+          InfoFix = FALSE
 INVARIANTS TypeOK L2ImpliesL1 HandlerOnlyAfterGate NoClientBytesBeforeCheckInStrict
 CHECK_DEADLOCK FALSE
